@@ -730,9 +730,10 @@ Section Inv.
         * apply mu_same; [exact HI | reflexivity | rewrite Hp; reflexivity].
         * apply rz_set; [exact HI | exact Erz | reflexivity | reflexivity].
     - (* PR_Table *)
-      cbv zeta in Hs. destruct hn; fin Hs; cbn [norm].
+      cbv zeta in Hs. destruct hn; [| destruct (Nat.ltb minlen _) |]; fin Hs; cbn [norm].
       + pure_move HI Hp. split; [exact (xi_cur s HI) | exact I].
       + pure_move HI Hp. exact (xi_cur s HI).
+      + pure_move HI Hp.
       + eapply push_gen with (len := minlen) (seed := seeds (length (g_tabs s))); try reflexivity;
           [exact HI | exact Hminlen | rewrite Hp; reflexivity | rewrite Hp; reflexivity | rewrite Hp; reflexivity |].
         cbn. unfold push_tab. cbn [g_tabs]. rewrite app_length. cbn. lia.
